@@ -242,3 +242,73 @@ theorem rt_record_chunked (env : Env) (d : Decl) (hwf : declWFb d = true) (hne :
   rw [hs4, hs3, htot, hhll]
   simp [AbsSrc.adv, AbsSrc.after, hver]
   omega
+
+/-- one record (either layout) read back by its own definition, from the field-level statements -/
+theorem rt_record (env : Env) (d : Decl) (hwf : declWFb d = true) (items : Val)
+    (hSF : SFields env items) (hSC : SChunk env items) (st : EncSt) (b : Bytes) (st' : EncSt) (fuel : Nat)
+    (he : ((recordPre d st).bind fun (pre, st1) =>
+            (encFields env d.steps d.fields items st1).bind fun (fs, st2) =>
+            (recordFinish d pre fs).bind fun b => Outcome.ok (b, st2)) = .ok (b, st'))
+    (hu : items.utf8OK) (hst : StOK st) (hd : items.depth < fuel)
+    (s : AbsSrc) (t : Bytes) (hw : s.WF) (hv : s.view = b ++ t) (hs : s.strs = st) :
+    runAbs (readRecord d.steps (declDecs (dec env fuel) d)) s
+      = .ok (.list (normFields env d.fields items), s.after b.length st') ∧ StOK st' := by
+  by_cases hsteps : d.steps = []
+  · -- headerless
+    have hfok := (declWF_unpack d hwf).1
+    have hpre : recordPre d st = .ok ([], st) := by simp [recordPre, hsteps]
+    rw [hpre] at he
+    simp only [Outcome.bind_ok, hsteps] at he
+    cases hf : encFields env [] d.fields items st with
+    | ok r0 =>
+      obtain ⟨l, st2⟩ := r0
+      have hfin : recordFinish d [] l = .ok (0 :: l.flatMap (·.bytes)) := by simp [recordFinish, hsteps]
+      simp [hf, hfin] at he
+      obtain ⟨rfl, rfl⟩ := he
+      have hv' : s.view = 0 :: (l.flatMap (·.bytes) ++ t) := by simpa using hv
+      have hv1 : (s.after 1 s.strs).view = l.flatMap (·.bytes) ++ t := by
+        have := (view_cons hv').2; simpa [adv_eq_after] using this
+      have hw1 : (s.after 1 s.strs).WF := by
+        have := AbsSrc.WF_adv1 hw hv'; simpa [adv_eq_after] using this
+      have h2 := hSF d.fields st l st2 fuel _ hf hu hst hd V0St_new hfok _ t hw1 hv1 (by simpa using hs)
+      simp only [readRecord, readRecordBody, bind_eq_dbind, pure_eq_ret, hsteps]
+      rw [readU8_bind' _ hv']
+      simp only [show (0 : Byte).toNat = 0 by decide, List.length_nil, recNew_v0, DProg.bind]
+      rw [runAbs_bind]
+      have h2' : runAbs (readFields [] _ (declDecs (dec env fuel) d)) (s.after 1 s.strs)
+          = .ok ((normFields env d.fields items).toList, (s.after 1 s.strs).after (l.flatMap (·.bytes)).length st2) := h2.1
+      rw [h2']
+      simp [runAbs, h2.2.1, h2.2.2, Nat.add_comm]
+    | err e => simp [hf] at he
+    | panic w => simp [hf] at he
+  · -- chunked
+    have hne : d.steps.isEmpty = false := by
+      cases hh : d.steps with
+      | nil => exact absurd hh hsteps
+      | cons a r => rfl
+    unfold recordPre at he
+    simp only [hne, Bool.false_eq_true, if_false] at he
+    split at he
+    · simp at he
+    · rename_i hlen
+      cases hp : preNames d.steps (removedNames d.steps) st with
+      | ok p0 =>
+        obtain ⟨pre, st1⟩ := p0
+        simp only [hp, Outcome.bind_ok] at he
+        cases hf : encFields env d.steps d.fields items st1 with
+        | ok r0 =>
+          obtain ⟨fs, st2⟩ := r0
+          simp only [hf, Outcome.bind_ok] at he
+          have hrf : recordFinish d pre fs = assembleRecord d pre fs := by simp [recordFinish, hne]
+          rw [hrf] at he
+          cases ha : assembleRecord d pre fs with
+          | ok bb =>
+            simp [ha] at he
+            obtain ⟨rfl, rfl⟩ := he
+            exact rt_record_chunked env d hwf hsteps items hSC st pre st1 fs st2 bb fuel hp (by omega) hf ha hu hst hd s t hw hv hs
+          | err e => simp [ha] at he
+          | panic w => simp [ha] at he
+        | err e => simp [hf] at he
+        | panic w => simp [hf] at he
+      | err e => simp [hp] at he
+      | panic w => simp [hp] at he
